@@ -60,7 +60,13 @@ def gen_variant(r, sc):
             cuts = [r.randrange(1, min(n, 24))] if n > 1 else []
         else:
             cuts = G.gen_cuts(r, n, style)
-        gaps = [r.choice([0.0005, 0.002, 0.03, 0.2]) for _ in range(len(cuts) + 1)]
+        if sc["modes"][0] == "transparent" and not var["client"] and r.random() < 0.85:
+            # transparent mode guesses the protocol from the first segment; keep the first flight at least one
+            # line long in most variants so that what is compared is HTTP handling (the guess itself is still
+            # exercised by the remaining variants)
+            eol = H.B(st["data"]).find(b"\n")
+            cuts = [c for c in cuts if c > eol]
+        gaps = [r.choice([0.0005, 0.002, 0.03, 0.2] if len(cuts) < 12 else [0.0005, 0.002, 0.01]) for _ in range(len(cuts) + 1)]
         var["client"].append({"cuts": cuts, "gaps": gaps})
     for k, rp in sc["origins"]["*"]["replies"].items():
         n = len(rp["data"])
@@ -86,16 +92,22 @@ def generate(rng, tier):
         methods.append(rq["method"])
         rp, meta = G.gen_reply(r, k, rq["method"], profile)
         rp["cuts"], rp["gaps"], rp["method"] = [], [], rq["method"]
+        # An origin that sends extra bytes after a complete response poisons its keep-alive connection; whether the
+        # garbage is seen before or after the next request is forwarded is the origin's timing, so the outcome may
+        # legitimately differ.  Such tails are cut off here (C01 keeps them).
+        pr = P.parse_responses(H.B(rp["data"]), [H.B(rq["method"])], True)
+        if pr.status == "ambiguous" and pr.reason.startswith("response bytes without") and pr.msgs:
+            rp["data"] = rp["data"][:pr.msgs[-1].end]
         replies[str(k)] = rp
     steps = []
     if pipelined:
         data = b"".join(q["data"] for q in reqs)
         steps.append({"op": "send", "data": G.S(data), "cuts": [], "gaps": []})
-        steps.append({"op": "await", "n": nreq, "timeout": 10.0})
+        steps.append({"op": "await", "n": nreq, "timeout": 400.0})
     else:
         for k, q in enumerate(reqs):
             steps.append({"op": "send", "data": G.S(q["data"]), "cuts": [], "gaps": []})
-            steps.append({"op": "await", "n": k + 1, "timeout": 10.0})
+            steps.append({"op": "await", "n": k + 1, "timeout": 400.0})
     steps.append({"op": "fin"})
     policy = []
     for _ in range(r.choice([0, 0, 1, 2])):
@@ -108,11 +120,14 @@ def generate(rng, tier):
             edits = [e for e in edits if e["k"] != "content"]
         policy.append({"hook": hook, "nth": r.choice([0, 1]), "latency": 0, "action": "edit", "which": which, "edits": edits})
     options = {"connection_strategy": r.choice(["eager", "lazy"]), "validate_inbound_headers": True}
-    origin = {"kind": "h1", "replies": replies, "idle_close": 3.0, "connect": [{"delay": r.choice([0, 0.01])}]}
+    # a patient origin: its idle timeout must not fire between slowly delivered segments (that would be the
+    # origin's timing, not mitmproxy's segmentation handling)
+    origin = {"kind": "h1", "replies": replies, "idle_close": 200.0, "connect": [{"delay": r.choice([0, 0.01])}]}
     sc = {"family": "http1-" + mode.split(":")[0], "modes": [mode], "eager": r.random() < 0.5, "options": options,
           "clients": [{"steps": steps, "methods": methods,
                        "original_dst": ["a.test", 80] if mode == "transparent" else None}],
-          "origins": {"*": origin}, "policy": policy, "faults": [], "settle": 15.0, "pipelined": pipelined}
+          "origins": {"*": origin}, "policy": policy, "faults": [], "settle": 250.0, "max_time": 3000.0,
+          "pipelined": pipelined}
     nvar = 3 if tier == "quick" else 12
     sc["variants"] = [gen_variant(r, sc) for _ in range(nvar)]
     return sc
@@ -183,10 +198,30 @@ def diff(base, other):
         for field in ("hooks", "request", "response", "error"):
             if a[field] != b[field]:
                 return ("flow_differs", {"field": field}, f"flow #{i} {field}: baseline={a[field]!r:.300} variant={b[field]!r:.300}")
-    if [u[1:] for u in base["upstream"]] != [u[1:] for u in other["upstream"]]:
+    # which upstream connection carried a request may depend on timing (origin idle timeouts); the message
+    # sequence per destination may not
+    def flat(s):
+        out = {}
+        for addr, msgs, status in s["upstream"]:
+            out.setdefault(addr, []).extend(msgs)
+            if status != "ok":
+                out[addr].append(("status", status))
+        return out
+    if flat(base) != flat(other):
         return ("upstream_messages_differ", {}, f"baseline={base['upstream']!r:.400} variant={other['upstream']!r:.400}")
     if base["client"] != other["client"]:
-        return ("client_messages_differ", {}, f"baseline={base['client']!r:.400} variant={other['client']!r:.400}")
+        # classify: is the only difference a trailing mitmproxy error page that one run sent and the other did not?
+        kind = "other"
+        try:
+            (a, sa, ca), (b, sb, cb) = base["client"][0], other["client"][0]
+            short, long_ = (a, b) if len(a) <= len(b) else (b, a)
+            extra = long_[len(short):]
+            if long_[:len(short)] == short and extra and all(
+                    x[1] >= 400 and any(n.lower() == b"server" and v.startswith(b"mitmproxy") for n, v in x[2]) for x in extra):
+                kind = "error_page_sent_or_not"
+        except Exception:
+            pass
+        return ("client_messages_differ", {"kind": kind}, f"baseline={base['client']!r:.400} variant={other['client']!r:.400}")
     return None
 
 
@@ -231,6 +266,12 @@ def execute(sc):
         if d is not None:
             cls, key, text = d
             key = dict(key, mode=sc["modes"][0].split(":")[0])
+            if cls == "flow_count_differs":
+                # context: an empty line in front of a pipelined request line (after the blank line ending the
+                # previous message)?
+                alld = b"".join(H.B(st["data"]) for st in sc["clients"][0]["steps"] if st["op"] == "send")
+                key["blank_line_before_request_line"] = bool(
+                    re.search(rb"\n(\r?\n){2,}[A-Za-z-]+ [^ \r\n]+ HTTP/\d", alld))
             v.append({"class": cls, "key": key, "msg": f"variant {vi}: {text}"})
             break
     if crash:
